@@ -247,6 +247,43 @@ def emit(prop, tier, seed, t0, runs, extra_findings=(), level="model_checking", 
         "known_findings_reproduced": sorted(hits.keys()),
         "exhaustive": False,
     }
+    # how often the property's own antecedent held (decided by the reference run, see Shape0 in Trace.tla)
+    shapes = [c.get("shape", "") for r in runs for c in r["cov"]]
+
+    def cnt(pred):
+        n, distinct = 0, set()
+        for sh in shapes:
+            parts = sh.split("|")
+            if len(parts) == 4 and pred(parts[0].split(",") if parts[0] else [], parts[1], parts[2], int(parts[3] or 0)):
+                n += 1
+                distinct.add(sh)
+        return n, len(distinct)
+    ante = {
+        "C01": ("every call", lambda k, stop, why, unk: True),
+        "C02": ("every call", lambda k, stop, why, unk: True),
+        "C03": ("reference run has a V5/V7 item or a cut V5/V7 packet", lambda k, stop, why, unk: "v5" in k or "v7" in k or why == "fixed-cut"),
+        "C04": ("reference run has a V9 item", lambda k, stop, why, unk: "v9" in k),
+        "C05": ("reference run has an IPFIX item", lambda k, stop, why, unk: "ipfix" in k),
+        "C06": ("reference run has a V9/IPFIX item", lambda k, stop, why, unk: "v9" in k or "ipfix" in k),
+        "C07": ("reference run meets data for an unknown template", lambda k, stop, why, unk: why == "unknown-template" or unk > 0),
+        "C08": ("reference run has a V5/V7 item", lambda k, stop, why, unk: "v5" in k or "v7" in k),
+        "C09": ("reference run has a V9 item", lambda k, stop, why, unk: "v9" in k),
+        "C10": ("reference run has an IPFIX item", lambda k, stop, why, unk: "ipfix" in k),
+        "C11": ("reference run decodes two or more chained packets without error", lambda k, stop, why, unk: len(k) >= 2 and stop == "end"),
+        "C12": ("reference run stops at a disallowed version or meets an unknown version", lambda k, stop, why, unk: stop == "unallowed" or why == "unknown-version"),
+        "C13": ("reference run has any item", lambda k, stop, why, unk: len(k) >= 1),
+        "C14": ("reference run ends in a cut packet", lambda k, stop, why, unk: why in ("header-cut", "set-header-cut", "set-body-cut", "message-cut", "fixed-cut", "version-cut")),
+        "C15": ("every call", lambda k, stop, why, unk: True),
+        "C16": ("every call", lambda k, stop, why, unk: True),
+        "C17": ("reference run has a V9/IPFIX item", lambda k, stop, why, unk: "v9" in k or "ipfix" in k),
+    }
+    if prop in ante:
+        n, d = cnt(ante[prop][1])
+        cov["evaluations"] = max(1, sum(r.get("calls", 0) for r in runs))
+        cov["antecedent_held_on_events"] = n
+        cov["distinct_nontrivial"] = max(d, 0)
+        cov["rule"] = ("an event is non-trivial when the property's antecedent holds on it: %s; distinct = distinct shapes "
+                       "(item kinds in order | stop reason | error cause | unknown-template sets) of the reference run" % ante[prop][0])
     if extra_cov:
         cov.update(extra_cov)
     ev = {"property_id": prop, "tier": tier, "seed": seed, "level": level, "coverage": cov,
